@@ -264,7 +264,7 @@ func CoerceString(v Value) string {
 func GetAttr(v Value, attr Value, args ...Value) (Value, error) {
 	r := reflect.Indirect(reflect.ValueOf(v))
 	if !r.IsValid() {
-		return nil, fmt.Errorf("getattr: value does not support attribute lookup: %v", v)
+		return nil, fmt.Errorf("getattr: value does not support attribute lookup: %s", describe(v))
 	}
 	var retval reflect.Value
 	switch r.Kind() {
@@ -291,18 +291,18 @@ func GetAttr(v Value, attr Value, args ...Value) (Value, error) {
 		}
 	}
 	if !retval.IsValid() {
-		return nil, fmt.Errorf("getattr: unable to locate attribute \"%s\" on \"%v\"", attr, v)
+		return nil, fmt.Errorf("getattr: unable to locate attribute \"%s\" on \"%s\"", describe(attr), describe(v))
 	}
 	if retval.Kind() == reflect.Func {
 		t := retval.Type()
 		if t.NumOut() > 1 {
-			return nil, fmt.Errorf("getattr: multiple return values unsupported, called method \"%s\" on \"%v\"", attr, v)
+			return nil, fmt.Errorf("getattr: multiple return values unsupported, called method \"%s\" on \"%s\"", describe(attr), describe(v))
 		}
 		if retval.IsNil() {
-			return nil, fmt.Errorf("getattr: \"%s\" on \"%v\" is a nil func", attr, v)
+			return nil, fmt.Errorf("getattr: \"%s\" on \"%s\" is a nil func", describe(attr), describe(v))
 		}
 		if t.NumIn() != len(args) && !(t.IsVariadic() && len(args) >= t.NumIn()-1) {
-			return nil, fmt.Errorf("getattr: method \"%s\" on \"%v\" expects %d parameter(s), %d given", attr, v, t.NumIn(), len(args))
+			return nil, fmt.Errorf("getattr: method \"%s\" on \"%s\" expects %d parameter(s), %d given", describe(attr), describe(v), t.NumIn(), len(args))
 		}
 		rargs := make([]reflect.Value, len(args))
 		for k, arg := range args {
@@ -314,7 +314,7 @@ func GetAttr(v Value, attr Value, args ...Value) (Value, error) {
 			}
 			rarg, ok := convertValue(arg, pt)
 			if !ok {
-				return nil, fmt.Errorf("getattr: method \"%s\" on \"%v\" cannot use \"%v\" as parameter %d", attr, v, arg, k+1)
+				return nil, fmt.Errorf("getattr: method \"%s\" on \"%s\" cannot use \"%s\" as parameter %d", describe(attr), describe(v), describe(arg), k+1)
 			}
 			rargs[k] = rarg
 		}
@@ -325,6 +325,18 @@ func GetAttr(v Value, attr Value, args ...Value) (Value, error) {
 		retval = res[0]
 	}
 	return retval.Interface(), nil
+}
+
+// describe names a value in an error message: scalars by their value,
+// everything else by its type. (Formatting a container with %v would walk it,
+// which never ends for data that refers back to itself.)
+func describe(v Value) string {
+	switch reflect.Indirect(reflect.ValueOf(v)).Kind() {
+	case reflect.Map, reflect.Slice, reflect.Array, reflect.Struct, reflect.Interface, reflect.Ptr,
+		reflect.Func, reflect.Chan, reflect.UnsafePointer:
+		return fmt.Sprintf("%T", v)
+	}
+	return fmt.Sprintf("%v", v)
 }
 
 // fieldByName is r.FieldByName, except that a field promoted through an
@@ -406,7 +418,7 @@ func getMethod(v Value, name string) (reflect.Value, error) {
 	if retVal.IsValid() {
 		return retVal, nil
 	}
-	return retVal, fmt.Errorf("stick: unable to locate method \"%s\" on \"%v\"", name, v)
+	return retVal, fmt.Errorf("stick: unable to locate method \"%s\" on \"%s\"", name, describe(v))
 }
 
 // An Iteratee is called for each step in a loop.
@@ -513,7 +525,7 @@ func Iterate(val Value, it Iteratee) (int, error) {
 		}
 		return ln, nil
 	default:
-		return 0, fmt.Errorf(`stick: unable to iterate over %s "%v"`, r.Kind(), val)
+		return 0, fmt.Errorf(`stick: unable to iterate over %s "%s"`, r.Kind(), describe(val))
 	}
 }
 
@@ -527,7 +539,7 @@ func Len(val Value) (int, error) {
 	case reflect.Slice, reflect.Array, reflect.Map:
 		return r.Len(), nil
 	}
-	return 0, fmt.Errorf(`stick: could not get Length of %s "%v"`, r.Kind(), val)
+	return 0, fmt.Errorf(`stick: could not get Length of %s "%s"`, r.Kind(), describe(val))
 }
 
 // Equal returns true if the two Values are considered equal.
